@@ -7,7 +7,7 @@ PROP = "C12"
 TOKENS = [b"a", b"1", b"#", b".", b"-", b"@", b"[", b"]", b" ", b"_", b"(", b":"]
 
 
-def extra_jobs(tier):
+def extra_jobs(tier, seed=1):
     def f(cx, exe, opts, extra, name):
         k = 4 if tier == "quick" else 5
         jobs = []
@@ -16,6 +16,17 @@ def extra_jobs(tier):
         allv = strings + [s + b"@a.bc" for s in strings if len(s) <= 3] + [b"a@" + s for s in strings if len(s) <= 4]
         for i in range(0, len(allv), 3000):
             jobs.append((AG.w_addr, (exe, allv[i:i + 3000], [PROP], opts, extra, 1 | 4, None, "enum")))
+        # the domain corpora of C07 (every table row in several case forms, near misses) and C09 (reserved names and neighbours)
+        # behind rotating local parts: the relations also hold where the TLD table and the reserved-name rules decide
+        import random
+        from .. import tldgen as TG, model as _model
+        rng = random.Random(seed)
+        mdl = _model.Model()
+        doms = TG.tld_domains(tier, rng, mdl)[:: (2 if tier == "quick" else 1)] + TG.special_domains(tier, rng)[:: (6 if tier == "quick" else 1)]
+        lps = [b"user", b"a.b", b"x", b"first.last+tag", b"a" * 64]
+        dv = [lps[i % len(lps)] + b"@" + d for i, d in enumerate(doms)]
+        for i in range(0, len(dv), 3000):
+            jobs.append((AG.w_addr, (exe, dv[i:i + 3000], [PROP], opts, extra, 1 | 4, None, "tld-corpora")))
         return jobs
     return f
 
@@ -24,13 +35,13 @@ def main(tier, seed):
     rep, cx, n = addr_common.run(
         PROP, tier, seed, sections=1 | 4, variants=[("asan", {}, False)], rule="",
         assumptions=["R1 exemption: mode 6531 reports an IDN-library error and the ASCII modes report no local-part error"],
-        extra_jobs=extra_jobs(tier))
+        extra_jobs=extra_jobs(tier, seed))
     c = rep.counters
     ev = c["R1.checked"] + c["R2.checked"] + c["R3.checked"]
     rep.require(not (not (c["R1.checked"] and c["R2.checked"] and c["R3.checked"])), "a relation was never exercised")
     return rep.finish(ev, rep.distinct_count,
                       "all strings up to length %d over a 12-token alphabet as whole address / local part / domain, plus the "
-                      "C01 address corpus; relations R1 (pure ASCII, no quote/backslash: same decision and code in 4 modes), R2 "
+                      "C01 address corpus and the C07 / C09 domain corpora behind rotating local parts; relations R1 (pure ASCII, no quote/backslash: same decision and code in 4 modes), R2 "
                       "(5321 accepts => 822 accepts), R3 (same domain verdict/class/flags in the ASCII modes); tld off and on; "
                       "distinct = distinct addresses" % (4 if tier == "quick" else 5),
                       {"builds": cx.builds_info()})
